@@ -13,6 +13,7 @@ def harness_args(run, tier, n, cases):
 
 PROP = {
     "id": "C17",
+    "tie2": ["Tie2Secs1"],
     "harness": "c17",
     "driver": "c17",
     "n_quick": 5000,
